@@ -9,12 +9,13 @@ From Coq Require Import List Bool Arith.
 Import ListNotations.
 
 Inductive exn :=
-| EValue | EKey | EType | EZeroDiv | EOverflow | EFloat | EAssert | EIndex | ELinAlg | EMemory | EUnbound | EOther.
+| EValue | EKey | EType | EZeroDiv | EOverflow | EFloat | EAssert | EIndex | ELinAlg | EMemory | EUnbound | EOs | ENotImpl | EOther.
 
 Definition exn_eqb (a b : exn) : bool :=
   match a, b with
   | EValue, EValue | EKey, EKey | EType, EType | EZeroDiv, EZeroDiv | EOverflow, EOverflow | EFloat, EFloat
-  | EAssert, EAssert | EIndex, EIndex | ELinAlg, ELinAlg | EMemory, EMemory | EUnbound, EUnbound | EOther, EOther => true
+  | EAssert, EAssert | EIndex, EIndex | ELinAlg, ELinAlg | EMemory, EMemory | EUnbound, EUnbound | EOs, EOs | ENotImpl, ENotImpl
+  | EOther, EOther => true
   | _, _ => false
   end.
 
@@ -48,9 +49,10 @@ Definition stages : list stage := [
   (* 15 --insulation-load                                         *) mkStage [EValue; EKey] [EValue; EKey] false;
   (* 16 --phi / --theta                                           *) mkStage [EValue; EType; EOther] [] true;
   (* 17 --near-field                                              *) mkStage [EValue] [EValue] false;
-  (* 18 compute (): matrix, solve, finiteness, positive power     *) mkStage (ELinAlg :: EMemory :: arith) (ELinAlg :: EMemory :: arith) false;
-  (* 19 near and far fields, finiteness                           *) mkStage (EValue :: EMemory :: arith) (EValue :: EMemory :: arith) false;
-  (* 20 report: format_float is total on finite values (C19)      *) mkStage [] [] false
+  (* 18 --output-basic-input / --output-cmdline                   *) mkStage [EOs; ENotImpl] [EOs; ENotImpl] false;
+  (* 19 compute (): matrix, solve, finiteness, positive power     *) mkStage (ELinAlg :: EMemory :: arith) (ELinAlg :: EMemory :: arith) false;
+  (* 20 near and far fields, finiteness                           *) mkStage (EValue :: EMemory :: arith) (EValue :: EMemory :: arith) false;
+  (* 21 report: format_float is total on finite values (C19)      *) mkStage [] [] false
 ].
 
 (* the same table before the repairs (DESIGN.md App. C, bold rows) *)
@@ -68,6 +70,7 @@ Definition stages_before : list stage := [
   mkStage [EValue; EKey] [EValue; EKey] false;
   mkStage [EValue; EType; EOther] [] true;
   mkStage [EValue] [EValue] false;
+  mkStage [EOs; ENotImpl] [] false;
   mkStage (ELinAlg :: EMemory :: arith) [] false;
   mkStage (EValue :: EMemory :: EUnbound :: arith) [] false;
   mkStage [EValue; EOverflow] [] false
